@@ -67,11 +67,16 @@ def run(ctx):
             exp += data + b'|' + data + b'!' + data[1:] + b'\n'
             src += '  byte vb[%d]; for (int i = 0; i < vb.length; i += 1) { vb[i] = mb[i]; } write(vb); write(\'|\');\n' % n
             exp += b'!' + data[1:] + b'|'
+        if not n:
+            src += '  byte vz[keep - 321]; write(vz); write(\'|\'); byte[] ez = []; write(ez); write(\'|\'); const byte[] cz = []; write(cz); write(\'|\'); writeln(vz);\n'
+            exp += b'|||\n'
         src += '  write(keep); write(guard[0]); write(guard[1]);\n}\n'
         exp += b'321111222'
         ws = [2, 4] if q else [2, 3, 4, 8]
         units.append((src, [Cfg((), w, 400, False) for w in ws]))
         expect.append([exp] * len(ws))
+    import sweeps
+    sweeps.fill_sweep(ctx, sweeps.FILL_BODIES[:4] + sweeps.FILL_BODIES[7:8], [2, 3, 4] if q else [2, 3, 4, 8], [10] if q else [10, 20], label='write family with the stack filled to the byte (caller arrays must survive)')
     results = diffrun.run_units(units, want_ref=False, fuel=3_000_000)
     total = 0
     distinct = set()
@@ -85,7 +90,7 @@ def run(ctx):
                 ctx.violate('write family output differs from the canonical form', cls='write', source=src, args=list(res.cfg.args)[:40], w=res.cfg.w,
                             expected=exp[:300].decode('latin1'), got=[end, flags, out[:300].decode('latin1')], detail=res.run.detail)
     ctx.cov['evaluations'] += total
-    ctx.cov['distinct_nontrivial'] = len(distinct)
+    ctx.cov['distinct_nontrivial'] = ctx.cov.get('distinct_nontrivial', 0) + len(distinct)
     ctx.cov['rule'] = ('write(int) of %s values at 16 bits and boundary+random values at 24/32/64 bits read from argv (nothing folded), write(bool/byte), writeln forms, '
                        'strings and byte arrays (const, mutable, VLA copy, string-converted) of lengths %s with caller locals/arrays read back afterwards; '
                        'expected output computed by the harness; distinct = distinct (program, configuration)') % ('all 65536' if not q else 'boundary+random', '0..64' if not q else 'sampled from 0..64')
